@@ -210,6 +210,9 @@ def base_axioms(ct):
     ax = [
         typeof_u(NONE_MARK) == ct.cls("MarkerObject"),
         z3.ForAll([x], tlen(x) >= 0, patterns=[tlen(x)]),
+        # exact int / bool / NoneType objects are the ival / bval / none values, never heap objects
+        z3.ForAll([x], z3.And(typeof_u(x) != ct.cls("int"), typeof_u(x) != ct.cls("bool"), typeof_u(x) != ct.cls("NoneType")),
+                  patterns=[typeof_u(x)]),
     ]
     return ax
 
